@@ -220,9 +220,8 @@ def r13b(R):
         ok = ok and bool(removes) and \
             rcfg.find_path(body_in, lambda x: x is l1, avoid=removes) is None
         empt = [n for n in rcfg.nodes if n.kind == 'cond'
-                and norm(n.ast).replace(' ', '') in (
-                    'len(%s)==0' % norm(l1.ast.target.elts[1]),
-                    'not%s' % norm(l1.ast.target.elts[1]))]
+                and A.emptiness(n.ast) is not None
+                and A.emptiness(n.ast)[0] == norm(l1.ast.target.elts[1])]
         dels = [n for n in rcfg.nodes if n.kind == 'stmt'
                 and isinstance(n.ast, ast.Delete)
                 and norm(n.ast.targets[0]).startswith('target_dict[')]
@@ -431,13 +430,19 @@ def r13f(R):
             alt = tuple(sorted((pos[0] if pos else 'pos', end)))
             ok = ok and any(t == '%s == %s' % alt and truth is False
                             for t, truth in facts)
-        empties = [t for t in mcfg.nodes if t.kind == 'cond' and isinstance(t.ast, ast.Compare)
-                   and norm(t.ast.left) == 'len(self)'
-                   and A.try_fold(t.ast.comparators[0], m, 'x') == 0
-                   and isinstance(t.ast.ops[0], ast.Eq)]
+        # a test of the list's length against a constant may only ask
+        # "empty?" (in any notation): `len(self) <= 1` would treat a
+        # one-element list as empty
+        wrong_threshold = [t for t in mcfg.nodes if t.kind == 'cond'
+                           and isinstance(t.ast, ast.Compare)
+                           and any(norm(x) == 'len(self)' for x in
+                                   [t.ast.left] + t.ast.comparators)
+                           and any(isinstance(x, ast.Constant) for x in
+                                   [t.ast.left] + t.ast.comparators)
+                           and A.emptiness(t.ast) is None]
         R.check(m, 'SortedList.%s: None at the %s end, else the neighbour'
                 % (mname, 'upper' if mname == 'next' else 'lower'),
-                ok and len(empties) == 1,
+                ok and not wrong_threshold,
                 'SortedList.%s does not answer None exactly at the end of the '
                 'list (or treats a one-element list as empty): an iteration '
                 'loses a light or never ends' % mname)
